@@ -32,6 +32,10 @@ def cases(seed, tier):
         if i % 4 == 0:
             # fully discrete decision problem with (binding) constraints on discrete choices
             c["force"] = sorted(set([x for x in c["force"] if x not in ("cont2", "flatc")] + ["nocc", "constraint"]))
+        if i % 5 == 2:
+            # states without any feasible choice (value -inf): both routes must report the same -inf
+            c["force"] = sorted(set((c["force"] or []) + ["ninf"]))
+            c["allow_ninf"] = True
     return cs
 
 
@@ -118,6 +122,7 @@ def run_case(case):
         vs.append({"clause": "'solve_and_simulate' runs", "detail": f"{impl_site(e)}: {str(e)[:200]}"})
     out["evals"] = n_on + cells
     out["hist"]["on_grid_agent_periods"] = n_on
+    out["hist"]["ninf_in_V"] = int(bool(info.get("has_ninf")))
     out["hist"]["fully_discrete"] = int(not any(g["k"] != "disc" for _, g in mj["states"]))
     for v in vs[:3]:
         v["key"] = "C06:" + v["clause"]
